@@ -137,7 +137,10 @@ def _render(rng, t, min_level, right_side, octal, redundancy, c_safe=False):
         shift = c_safe and op in ('<<', '>>')
         left = _render(rng, a, 9 if shift else lvl, False, octal, redundancy, c_safe)
         right = _render(rng, b, 9 if shift else lvl + 1, True, octal, redundancy, c_safe)
-        s = left + _sp(rng) + op + _sp(rng) + right
+        gap = _sp(rng)
+        if not octal and op == '-' and right.startswith('-'):
+            gap = ' '      # isar text is pasted into C++ and Python: `a--b` would be a decrement there (prophyc refuses it since b9757ab)
+        s = left + _sp(rng) + op + gap + right
         if lvl < min_level or shift:
             s = '(' + s + ')'
     if rng.random() < redundancy:
